@@ -8,7 +8,7 @@ import pandas as pd
 
 from . import e1, gen, models
 
-INDEX_KINDS = ("default", "named", "unnamed", "nonunique", "hilbert")
+INDEX_KINDS = ("default", "named", "named_range", "unnamed", "nonunique", "hilbert")
 
 
 def gen_index(rng, n, kind):
@@ -18,6 +18,9 @@ def gen_index(rng, n, kind):
         v = list(range(10, 10 + n))
         rng.shuffle(v)
         return {"kind": "named", "name": "rid", "values": v}
+    if kind == "named_range":
+        # the values of a default index, but carrying a name
+        return {"kind": "named_range", "name": "rid", "values": list(range(n))}
     if kind == "unnamed":
         v = list(range(50, 50 + n))
         rng.shuffle(v)
